@@ -197,6 +197,16 @@ Definition mvmul_r (a : mat) (v : vec) : vec :=
       (radd (radd (rmul (m10 a) (vx v)) (rmul (m11 a) (vy v))) (rmul (m12 a) (vz v)))
       (radd (radd (rmul (m20 a) (vx v)) (rmul (m21 a) (vy v))) (rmul (m22 a) (vz v))).
 
+(* ------------------------------------------------------------------ integer representative
+   The rotation of q is unchanged by a positive factor (PQV.rot_scale).  Multiplying by the largest
+   denominator turns a quaternion of doubles (denominators are powers of two) into one with integer
+   components, on which + and - need no cross-multiplication by 2^k denominators — the dominant cost
+   of Q arithmetic on doubles.  Correct for any rational quaternion (PQV.qint_rot), integral for dyadic ones. *)
+Definition qint (q : quat) : quat :=
+  let w := Qred (qw q) in let x := Qred (qx q) in let y := Qred (qy q) in let z := Qred (qz q) in
+  let k := Zpos (Pos.max (Pos.max (Qden w) (Qden x)) (Pos.max (Qden y) (Qden z))) # 1 in
+  mkQ (Qred (k * w)) (Qred (k * x)) (Qred (k * y)) (Qred (k * z)).
+
 (* ------------------------------------------------------------------ numerator / denominator form
    Cheapest exact evaluation of  rot_impl q * v : all nine entries of the matrix share one denominator d
    (1 in the unit branch, n2 q otherwise), so  rot_impl q * v = (M * v) / d  with M = rotNd d q free of
@@ -219,13 +229,14 @@ Definition rotNd_r (d : Q) (q : quat) : mat :=
 (* (M, d) with rot_impl q == M / d *)
 Definition rot_parts_r (q : quat) : mat * Q :=
   let n := n2_r q in
-  if Qlt_bool (Qabs (n - 1)) band then (rotNd_r 1 q, 1) else (rotNd_r n q, n).
+  if Qlt_bool (Qabs (n - 1)) band then (rotNd_r 1 q, 1)
+  else let q' := qint q in let n' := n2_r q' in (rotNd_r n' q', n').
 (* (M, d) with rot_impl (qinv q) == M / d : the squared norm of qinv q is 1/n, and its matrix is that of
    conj q with denominator n (normalising branch) or n^2 (unit branch) *)
 Definition rot_parts_inv_r (q : quat) : mat * Q :=
   let n := n2_r q in
-  let d := if Qlt_bool (Qabs (/ n - 1)) band then rmul n n else n in
-  (rotNd_r d (qconj q), d).
+  if Qlt_bool (Qabs (/ n - 1)) band then let d := rmul n n in (rotNd_r d (qconj q), d)
+  else let q' := qint q in let n' := n2_r q' in (rotNd_r n' (qconj q'), n').
 (* the quotient is left un-reduced: it is the end result of a call and is only compared *)
 Definition apply_parts_r (md : mat * Q) (v : vec) : vec :=
   let u := mvmul_r (fst md) v in
@@ -239,10 +250,20 @@ Definition rot_n (q : quat) : mat :=
   let n := n2_r q in let M := rotNd_r n q in
   mkM (m00 M / n) (m01 M / n) (m02 M / n) (m10 M / n) (m11 M / n) (m12 M / n) (m20 M / n) (m21 M / n) (m22 M / n).
 (* two quaternions denote the same rotation within tol on every matrix entry (entries are <= 1 in size, so
-   this is the property's "relative tolerance on matrix entries"); the zero quaternion only matches itself *)
-Definition close_rot (tol : Q) (a b : quat) : bool :=
-  if Qeq_bool (n2_r a) 0 then Qeq_bool (n2_r b) 0
-  else negb (Qeq_bool (n2_r b) 0) && close_mat tol 1 (rot_n a) (rot_n b).
+   this is the property's "relative tolerance on matrix entries"); the zero quaternion only matches itself.
+   Evaluated without any division: |A_ij/na - B_ij/nb| <= tol  <=>  |A_ij*nb - B_ij*na| <= tol*na*nb
+   (PQV.close_rot_spec: equals close_mat tol 1 (rot a) (rot b) for non-zero a, b). *)
+Definition close_rot_core (tol : Q) (a b : quat) : bool :=
+  let na := n2_r a in let nb := n2_r b in
+  if Qeq_bool na 0 then Qeq_bool nb 0
+  else negb (Qeq_bool nb 0) &&
+       (let A := rotNd_r na a in let B := rotNd_r nb b in
+        let bound := tol * (na * nb) in
+        let ok := fun x y : Q => Qle_bool (Qabs (rsub (rmul x nb) (rmul y na))) bound in
+        ok (m00 A) (m00 B) && ok (m01 A) (m01 B) && ok (m02 A) (m02 B) &&
+        ok (m10 A) (m10 B) && ok (m11 A) (m11 B) && ok (m12 A) (m12 B) &&
+        ok (m20 A) (m20 B) && ok (m21 A) (m21 B) && ok (m22 A) (m22 B)).
+Definition close_rot (tol : Q) (a b : quat) : bool := close_rot_core tol (qint a) (qint b).
 
 (* ------------------------------------------------------------------ exact literals for IEEE doubles
    A finite double is (+/-) m * 2^(+/-)e with m < 2^53; harness/props/c05.py (_cf) writes it with these. *)
